@@ -731,6 +731,17 @@ def _feasible(assign):
             r2, c2 = _le0_parts(a2)
             if r1 == r2 and c2 <= c1 and v1 and not v2:
                 return False
+    # P <= 0 and -P <= 0 only on the null set P == 0; neither is impossible (for non-NaN P, covered above)
+    for a1, v1 in les:
+        p1 = poly_from_key(a1[1])
+        for a2, v2 in les:
+            if a1 is a2:
+                continue
+            if (-p1).key() == a2[1] and v1 == v2:
+                if v1:
+                    return False
+                if not any(a[0] == "nan" and v for a, v in assign.items()):
+                    return False
     # ne0(P) false => le0(P) true and le0(-P) true
     for a, v in assign.items():
         if a[0] == "ne0" and not v:
@@ -869,8 +880,12 @@ def eval_atom(a, env):
         if f == "sign":
             return (args[0] > 0) - (args[0] < 0)
         # uninterpreted function: deterministic pseudo-random smooth map of its arguments
-        h = hash((f,) + tuple(round(x, 12) for x in args)) % 100003
-        return 0.5 + h / 100003.0
+        import zlib
+        h = zlib.crc32(repr((f,) + tuple(round(x, 9) for x in args)).encode()) % 100003   # deterministic across processes
+        val = 0.5 + h / 100003.0
+        if not _nonneg_atom(a) and (h % 2 == 1):
+            val = -val        # uninterpreted functions may be negative unless assumed positive
+        return val
     raise ValueError("cannot evaluate atom %r" % (a,))
 
 
